@@ -158,10 +158,63 @@ func registerValidateModels(e *Engine) {
 	})
 }
 
+// swag.ConvertBool on symbolic text: true iff the lower-cased text is one of swag's truthy words; never an error
+func registerSwagConvertBool(e *Engine) {
+	e.intrinsics["github.com/go-openapi/swag.ConvertBool"] = func(x *Exec, fn *ssa.Function, a []Value) (Value, bool) {
+		s := a[0].(*StrVal)
+		if s.IsConcrete() {
+			return nil, false
+		}
+		r := TFalse
+		for _, w := range []string{"true", "1", "yes", "ok", "y", "on", "selected", "checked", "t", "enabled"} {
+			r = tOr(r, x.foldEq(s, mkStr(w)))
+		}
+		return TupleVal{r, nilIface}, true
+	}
+}
+
 func mkSliceOfIface(sl *SliceVal) Value {
 	var vs []Value
 	for i := 0; i < sl.Len; i++ {
 		vs = append(vs, sl.At(i))
 	}
 	return mkSlice(vs)
+}
+
+// sync/atomic on a sequential engine: plain loads and stores. The typed wrappers
+// (atomic.Pointer[T], atomic.Int32, atomic.Value ...) are interpreted from source and end up here.
+func registerAtomicModels(e *Engine) {
+	delete(e.denyPkgs, "sync/atomic")
+	// GODEBUG settings: all at their defaults
+	e.intrinsics["(*internal/godebug.Setting).Value"] = func(x *Exec, fn *ssa.Function, a []Value) (Value, bool) { return mkStr(""), true }
+	e.intrinsics["(*internal/godebug.Setting).IncNonDefault"] = func(x *Exec, fn *ssa.Function, a []Value) (Value, bool) { return nil, true }
+	always := func(name string, f func(x *Exec, a []Value) Value) {
+		e.intrinsics["sync/atomic."+name] = func(x *Exec, fn *ssa.Function, a []Value) (Value, bool) { return f(x, a), true }
+	}
+	for _, t := range []string{"Int32", "Int64", "Uint32", "Uint64", "Uintptr", "Pointer"} {
+		always("Load"+t, func(x *Exec, a []Value) Value { return x.deref(a[0].(*PtrVal)).Load() })
+		always("Store"+t, func(x *Exec, a []Value) Value { x.deref(a[0].(*PtrVal)).Store(a[1]); return nil })
+		always("Swap"+t, func(x *Exec, a []Value) Value {
+			r := x.deref(a[0].(*PtrVal))
+			old := r.Load()
+			r.Store(a[1])
+			return old
+		})
+		always("CompareAndSwap"+t, func(x *Exec, a []Value) Value {
+			r := x.deref(a[0].(*PtrVal))
+			if x.decide(x.equalValues(r.Load(), a[1], nil)) {
+				r.Store(a[2])
+				return TTrue
+			}
+			return TFalse
+		})
+		if t != "Pointer" {
+			always("Add"+t, func(x *Exec, a []Value) Value {
+				r := x.deref(a[0].(*PtrVal))
+				nv := bvBin(OpAdd, r.Load().(*Term), a[1].(*Term))
+				r.Store(nv)
+				return nv
+			})
+		}
+	}
 }
